@@ -490,6 +490,10 @@ impl World {
     /// collection method (then `protect` / `weak_protect` are what C01 / C05 shield), inside the
     /// drop of an arena (everything of that arena goes), or outside any of these.
     pub fn process_events(&mut self, protect: &BTreeSet<Id>, weak_protect: &BTreeSet<Id>) {
+        for (t, ctx) in tok::take_garbage_drops() {
+            let (o, al): (&str, &[&str]) = if ctx == seam::CTX_BUILDER || ctx == seam::CTX_CALLBACK { ("C18.parts", &["C04.twice"]) } else { ("C04.twice", &["C18.parts"]) };
+            self.violate_with(o, al, format!("a destructor ran on memory that holds no value (it reads token id {t:#x}: never initialised, or already released)"));
+        }
         let drops = tok::drop_events_since(self.drop_cursor);
         self.drop_cursor = tok::drop_log_len();
         let mut sigd = 0u64;
